@@ -5,7 +5,7 @@ extern "C" {
 #endif
 #define SCH_MAXT 8
 #define SCH_MAXP 8192
-struct sch_point { unsigned enabled; int chosen; int running; };
+struct sch_pt { unsigned enabled; int chosen; int running; };
 void sch_init(int nthreads, const int* prefix, int prefix_len);
 void sch_thread_begin(int tid);
 void sch_point(int tid);
@@ -13,7 +13,7 @@ void sch_thread_end(int tid);
 void sch_disable(void);
 int sch_active(void);
 int sch_diverged(void);
-int sch_trace(const struct sch_point** out);
+int sch_trace(const struct sch_pt** out);
 #ifdef __cplusplus
 }
 #endif
